@@ -69,3 +69,78 @@ def xof_calls(mlen, outlen, clen=0, namelen=0):
     if namelen > 32:
         n += 1 + namelen // 8 + 1 + 5
     return n
+
+
+MAC_SRCS = HASH_SRCS + ["src/mac/ascon-prf.c", "src/mac/ascon-hmac.c", "src/mac/ascon-hmaca.c", "src/mac/ascon-kmac.c",
+                        "src/mac/ascon-kmaca.c", "src/aead/ascon-aead-common.c"]
+KDF_SRCS = MAC_SRCS + ["src/kdf/ascon-hkdf.c", "src/kdf/ascon-hkdfa.c", "src/kdf/ascon-kdf.c", "src/kdf/ascon-kdfa.c",
+                       "src/password/ascon-pbkdf2.c", "src/password/ascon-pbkdf2-hmac.c"]
+
+
+def hash_calls(m):
+    return m // 8 + 7
+
+
+def hmac_calls(klen, mlen):
+    n = hash_calls(64 + mlen) + hash_calls(96)
+    if klen > 64:
+        n += 2 * hash_calls(klen)
+    return n
+
+
+def kat_precheck(run_dir, algs):
+    """Validate the reference models against the repository's KAT files (native run)."""
+    import os, subprocess
+    from lib import vlib
+    exe = os.path.join(run_dir, "katcheck")
+    if not os.path.exists(exe):
+        r = subprocess.run(["gcc", "-O1", "-I", os.path.join(vlib.VERIF, "spec"), os.path.join(vlib.VERIF, "spec/spec.c"),
+                            os.path.join(vlib.VERIF, "spec/katcheck.c"), "-o", exe], capture_output=True, text=True)
+        if r.returncode != 0:
+            return [{"name": "katcheck-build", "ok": False, "detail": r.stderr[-500:]}]
+    out = []
+    for alg, fn in algs:
+        p = os.path.join(vlib.REPO, "test/kat", fn)
+        r = subprocess.run([exe, alg, p], capture_output=True, text=True)
+        out.append({"name": "oracle-vs-KAT:" + fn, "ok": r.returncode == 0, "detail": r.stdout.strip()[-200:]})
+    return out
+
+
+MASKED_AEAD_SRCS = {0: ["src/aead/ascon-aead-masked-128.c"], 1: ["src/aead/ascon-aead-masked-128a.c"], 2: ["src/aead/ascon-aead-masked-80pq.c"]}
+MASKED_COMMON = ["src/aead/ascon-aead-masked-common.c", "src/aead/ascon-aead-common.c", "src/masking/ascon-masked-state.c", "src/masking/ascon-masked-key.c"]
+MASKED_WORD = {"c64": "src/masking/ascon-masked-word-c64.c", "direct": "src/masking/ascon-masked-word-c64.c", "generic": "src/masking/ascon-masked-word-c64.c",
+               "c32": "src/masking/ascon-masked-word-c32.c"}
+MASKED_PERM = {"c64": ["src/masking/ascon-x2-c64.c", "src/masking/ascon-x3-c64.c", "src/masking/ascon-x4-c64.c"],
+               "c32": ["src/masking/ascon-x2-c32.c", "src/masking/ascon-x3-c32.c", "src/masking/ascon-x4-c32.c"]}
+MASKED_PERM["direct"] = MASKED_PERM["generic"] = MASKED_PERM["c64"]
+SHARE_TRIPLES = [(k, d, m) for m in (2, 3, 4) for k in (2, 3, 4) for d in (1, 2, 3, 4) if k <= m and d <= k]
+# cmake also accepts key/data share counts above the maximum; the headers clamp them
+CLAMPED_TRIPLES = [(4, 2, 3), (4, 4, 2), (3, 3, 2), (4, 3, 3)]
+
+
+def masked_query(Query, prop, alg, ad, m, be, shares, mode=0, keyinit=0, short=None, form="T"):
+    name = "masked-%s:%s:%s:%s:k%dd%dm%d:ad%d:m%d" % ({0: "enc", 1: "dec", 4: "short"}[mode], ALGN[alg], be, form, shares[0], shares[1], shares[2], ad, m)
+    defs = {"ALG": alg, "ADLEN": ad, "MLEN": m, "MODE": mode, "KEYINIT": keyinit, "LS_MAX": aead_calls(alg, ad, m) + 1}
+    if keyinit:
+        name += ":keyinit"
+    if mode == 4:
+        name += ":short%d" % short
+        defs["SHORT"] = short
+    srcs = MASKED_AEAD_SRCS[alg] + MASKED_COMMON
+    extra = ["harness/common/trng_stub.c"]
+    if be == "x86asm":
+        gen = ["asm_masked_word"]
+    else:
+        srcs = srcs + [MASKED_WORD[be]]
+        gen = []
+    if form == "T":
+        extra.append("harness/common/lockstep_masked.c")
+    else:
+        srcs = srcs + (MASKED_PERM[be] if be != "x86asm" else [])
+        if be == "x86asm":
+            gen.append("asm_masked_perm")
+    q = Query(name, "harness/C10/masked_aead.c", repo_srcs=srcs, extra_srcs=extra, backend=be, shares=shares, form=form, defs=defs,
+              shape={"alg": ALGN[alg], "adlen": ad, "mlen": m, "mode": mode, "key_init": keyinit, "short": short},
+              unwind=max(200, ad + 20, m + 20), timeout=1800, mem_gb=14)
+    q.asm_parts = gen
+    return q
